@@ -187,3 +187,18 @@ def register(claim):
         'geom poses it is given (external code).  Not decided: closed-form signed distances and normals.',
         'algebraic value numbering with opaque collision routine + dependency (non-interference) check',
         'DESIGN.md §3 C10')
+
+  claim('C07', 'other',
+        'Static relational check by algebraic value numbering: training.wrap (VmapWrapper or the '
+        'domain-randomisation wrapper, then Episode and AutoReset) is abstractly interpreted over a '
+        'scripted symbolic environment for a batch of three members with independent symbolic '
+        'termination flags and per-member randomised systems, and for every member alone; all '
+        'member outputs after reset and several steps are identical normal forms in the two runs '
+        '(for every termination schedule at once).  Structural rules fix the vmap lifting sites '
+        'and in_axes, and exclude collectives, ignored axis arguments and Python-side state in '
+        'mapped code.',
+        'Trusted: python ast, AVN normal form, jax.vmap = independent elementwise application.  Not '
+        'decided: jit-vs-eager numeric agreement (XLA); independence inside the physics pipelines '
+        'rests on vmap semantics plus R7.3.',
+        'relational (batched vs solo) algebraic value numbering + lifting-site and effect rules',
+        'DESIGN.md §3 C07')
